@@ -707,6 +707,13 @@ impl PredicatePushdown {
         // Build result: common conditions + simplified OR
         let mut result = common;
 
+        // A branch with nothing left is TRUE once the common factors hold, so
+        // the OR of the remainders is TRUE: `(A AND B) OR A` is just `A`.
+        // Dropping only the empty branch would wrongly keep `B` as a filter.
+        if remaining_branches.iter().any(|b| b.is_empty()) {
+            return Some(result);
+        }
+
         // Only add the OR if branches have remaining conditions
         let non_empty_branches: Vec<Expr> = remaining_branches
             .into_iter()
